@@ -177,7 +177,8 @@ impl Check for C14 {
     fn run_case(&mut self, ctx: &Ctx, idx: u64, st: &mut Stats) {
         let (fam, text) = self.text(ctx, idx);
         let (_, _, i) = self.fams(ctx).locate(idx);
-        let cfg = ObsCfg::default();
+        // under a memory checker the boxes are really released
+        let cfg = if ctx.flavour == Flavour::Miri { ObsCfg::plain(2_000_000) } else { ObsCfg::default() };
         st.count(&format!("cases:{}", fam));
         if fam == "builtin-x-shape" {
             let b = BUILTINS[(i as usize) / self.shapes.len()];
@@ -233,6 +234,16 @@ impl Check for C14 {
             Verdict::Mismatch { sig, detail } => st.violation(&format!("{}:{}", fam, sig), detail, &text),
         }
     }
+    fn post(&mut self, ctx: &Ctx, merged: &mut Stats) {
+        if ctx.flavour == Flavour::Rel {
+            // the builtins read and build text by hand (placeholders, conversions): a few thousand of the cases natively
+            // under valgrind memcheck, in both tiers
+            let mctx = Ctx { seed: ctx.seed, tier: Tier::Quick, flavour: Flavour::Miri };
+            let n = self.fams(&mctx).total();
+            crate::sup::run_valgrind_inproc("C14", &Ctx { seed: ctx.seed, tier: Tier::Quick, flavour: ctx.flavour }, n, 8, merged);
+        }
+    }
+
     fn summarize(&self, ctx: &Ctx, merged: &Stats) -> Summary {
         let fams = self.fams(ctx);
         let mut inconclusive = vec![];
